@@ -4768,3 +4768,22 @@ pub fn verif_decode_failure_packet<T: secp256k1::Signing, L: Logger>(
 		network_update: decoded.network_update.map(|u| format!("{:?}", u)),
 	}
 }
+
+/// Adds a node's hold time to the attribution data of a fulfilled HTLC as the node holding
+/// `shared_secret` does (the final node passes `None`). Only built with `_verif`.
+#[cfg(feature = "_verif")]
+pub fn verif_process_fulfill_attribution_data(
+	attribution_data: Option<AttributionData>, shared_secret: &[u8; 32], hold_time: u32,
+) -> AttributionData {
+	process_fulfill_attribution_data(attribution_data, shared_secret, hold_time)
+}
+
+/// Decodes the hold times of a fulfilled HTLC as the origin of a payment sent over `path` with
+/// `session_priv`. Only built with `_verif`.
+#[cfg(feature = "_verif")]
+pub fn verif_decode_fulfill_attribution_data<T: secp256k1::Signing, L: Logger>(
+	secp_ctx: &Secp256k1<T>, logger: &L, path: &Path, session_priv: &SecretKey,
+	attribution_data: AttributionData,
+) -> Vec<u32> {
+	decode_fulfill_attribution_data(secp_ctx, logger, path, session_priv, attribution_data)
+}
